@@ -12,12 +12,15 @@ for sid in ids:
     meta_p = f"{d}/meta.json"
     meta = json.load(open(meta_p)) if os.path.exists(meta_p) else {}
     prev_caught = meta.get("caught")
-    out = subprocess.run([f"{V}/tools/seedcheck.sh", d, prop], capture_output=True, text=True).stdout
+    # a change may land in code that is another property's subject (a C07 seed inside implicit.config is C17's): meta["also_checks"]
+    checks = [prop] + [c for c in meta.get("also_checks", []) if c != prop]
+    out = subprocess.run([f"{V}/tools/seedcheck.sh", d] + checks, capture_output=True, text=True).stdout
     clean = re.search(r"demo_clean_rc=(\d+)", out)
     patched = re.search(r"demo_patched_rc=(\d+)", out)
     tests = re.search(r"(\d+) passed", out)
     failed = re.search(r"(\d+) failed", out)
-    chk = re.search(r"check (\w+) rc=(\d+) :: (.*)", out)
+    allchk = list(re.finditer(r"check (\w+) rc=(\d+) :: (.*)", out))
+    chk = next((m for m in allchk if m.group(2) == "1"), allchk[0] if allchk else None)
     viol = None
     for m_ in re.finditer(r"\[C\d+\] ([a-z-]+): ((?:(?!\[C\d+\] ).)*)", chk.group(3) if chk else ""):
         if m_.group(1) != "labels":
@@ -31,7 +34,7 @@ for sid in ids:
                       "repo_tests_with_change": (tests.group(0) if tests else "?") + (", " + failed.group(0) if failed else ""),
                       "demo_with_change_rc": int(patched.group(1)) if patched else None},
         "what_was_run": f"tools/seedcheck.sh seeded/{sid} {prop}  (scratch copy of /repo under /tmp, removed afterwards)",
-        "check_result": {"check": prop, "rc": int(chk.group(2)) if chk else None,
+        "check_result": {"check": chk.group(1) if chk else prop, "rc": int(chk.group(2)) if chk else None,
                          "violation_kind": viol.group(1) if viol else None, "violation": (viol.group(2)[:300] if viol else None)},
         "caught": bool(chk and chk.group(2) == "1"),
     })
